@@ -495,9 +495,8 @@ net_writen(const char *const *s)
 			len = 4;
 			/* check if s[i] itself is too big */
 			if (l + 6 > sizeof(msg)) {
-				const char *sp = s[i], *nsp;
-
 				while (l > off + sizeof(msg) - 6) {
+					const char *sp = s[i] + off, *nsp;
 					size_t m;
 
 					nsp = strchr(s[i] + off, ' ');
